@@ -273,6 +273,14 @@ func writeEvidence(path string, prop string, cfg runConfig, res *runResult, sel 
 		"engine_errors":            res.errors,
 		"bounded":                  boundedOf(res),
 	}
+	if len(res.bounded) > 0 {
+		cov["bounded_checks"] = res.bounded
+		b := cov["bounded"].([]string)
+		for _, r := range res.bounded {
+			b = append(b, fmt.Sprintf("%s: contract trusted, stand-in by execution on %d grid inputs (%s)", r.Function, r.Cases, r.Bound))
+		}
+		cov["bounded"] = b
+	}
 	for k, v := range extra {
 		cov[k] = v
 	}
